@@ -7,14 +7,15 @@
                              and eval() (rewriting only with a backtick, namespace assembly, NameError -> AttributeError);
            Locate/Locate.v   (property C10's model) for the tie to label indexing.
    Kept findings mirrored by the models, each with a `_refuted` witness and the guarded statements:
-     #15  every bracket is rewritten once a backtick occurs           C16_positional_rewritten_refuted, ..._in_expression_refuted
+     NEW  a label that does not stand alone in its bracket            C16_label_in_nested_bracket_refuted, C16_label_slice_across_lines_refuted
+   Repaired since round 1 and now proved positively: #15 (fix 24bdfbd) — C16_positional_brackets_untouched.
      #26  diff(x, 0) = x                                               C16_diff_zero_formula_refuted
      NEW  labels with colon / closing bracket / edge backtick          C16_label_with_colon_refuted, C16_label_with_bracket_or_edge_backtick_refuted
      NEW  module globals / Python builtins visible to the expression   C16_undefined_name_leak_refuted
      NEW  integer arrays: the default fill NaN raises                  C16_int_array_nan_fill_refuted *)
 From Coq Require Import ZArith List Bool String Ascii.
 Import ListNotations.
-Require Import PyBase Funcs FuncsFacts FuncsExamples FuncsFacts2 FuncsExamples2 FuncsConv FuncsConvFacts EvalIdx EvalIdxFacts EvalIdxExamples EvalIdxWhole EvalIdxWholeExamples EvalIdxLocate EvalIdxLocateExamples EvalIdxProgram EvalIdxProgramExamples EvalIdxProgram2 EvalIdxProgram3 EvalIdxLocateSpans EvalIdxLocateRange EvalIdxInt.
+Require Import PyBase Funcs FuncsFacts FuncsExamples FuncsFacts2 FuncsExamples2 FuncsConv FuncsConvFacts EvalIdx EvalIdxFacts EvalIdxExamples EvalIdxWhole EvalIdxWholeExamples EvalIdxMixed EvalIdxLocate EvalIdxLocateExamples EvalIdxProgram EvalIdxProgramExamples EvalIdxProgram2 EvalIdxProgram3 EvalIdxLocateSpans EvalIdxLocateRange EvalIdxInt.
 Require Fsic.Locate.Locate Fsic.Locate.LocateFacts.
 Open Scope string_scope.
 Open Scope Z_scope.
@@ -269,9 +270,24 @@ Section C16_rewrite.
     has_char ch_tick e = false -> eval_text has locate e = Ret e.
   Proof. exact (eval_text_no_backtick has locate e). Qed.
 
-  Theorem C16_with_backtick_every_bracket_is_rewritten (e : string) :
-    has_char ch_tick e = true -> eval_text has locate e = rewrite has locate e.
-  Proof. exact (eval_text_backtick has locate e). Qed.
+  (* ... and with one only the brackets CONTAINING a backtick are rewritten (fix 24bdfbd): for EVERY string, the rewriter cuts
+     it at the matches of \[\s*(.+?)?\s*\] (scan), copies every character outside the matches, copies every match whose
+     text holds no backtick VERBATIM, and replaces the others by the callback's text, the leftmost failing one raising *)
+  Theorem C16_rewrite_is_piecewise (s : string) : rewrite has locate s = assemble has locate (scan s).
+  Proof. exact (rewrite_is_assemble has locate s). Qed.
+
+  (* positional_untouched at full strength: whenever the rewriter succeeds, its output is the concatenation of per-piece
+     outputs in which EVERY piece without a backtick — every bracket without a backtick, whatever else the expression
+     contains — is the piece itself *)
+  Theorem C16_positional_brackets_untouched (s t : string) :
+    rewrite has locate s = Ret t ->
+    exists ts, Forall2 (fun p u => piece_out has locate p = Ret u) (scan s) ts /\ t = sconcat ts /\
+               Forall2 (fun p u => has_char ch_tick (piece_src p) = false -> u = piece_src p) (scan s) ts.
+  Proof. exact (rewrite_pieces has locate s t). Qed.
+
+  (* an expression without any backtick is a fixed point of the rewriter (so eval_text e = rewrite e for every e) *)
+  Theorem C16_rewrite_without_backtick_is_identity (s : string) : has_char ch_tick s = false -> rewrite has locate s = Ret s.
+  Proof. exact (rewrite_no_tick_identity has locate s). Qed.
 
   (* ---- the substitution, bracket by bracket (these three equations determine it on every text whose brackets
           are not nested and not empty) ---- *)
@@ -285,6 +301,7 @@ Section C16_rewrite.
   (* wf_group g: g is non-empty, has no closing bracket and no newline, and neither starts nor ends with whitespace *)
   Theorem C16_rewrite_bracket (ws1 g ws2 post : string) :
     str_all is_re_space ws1 = true -> wf_group g = true -> str_all is_re_space ws2 = true ->
+    has_char ch_tick g = true ->
     rewrite has locate ("[" ++ ws1 ++ g ++ ws2 ++ "]" ++ post) =
       match resolve_group has locate g with
       | Raise e => Raise e                                                (* the first failing bracket aborts *)
@@ -292,9 +309,18 @@ Section C16_rewrite.
       end.
   Proof. exact (rewrite_bracket has locate ws1 g ws2 post). Qed.
 
+  (* the same bracket without a backtick: copied with its brackets and inner whitespace, whatever follows *)
+  Theorem C16_rewrite_bracket_verbatim (ws1 g ws2 post : string) :
+    str_all is_re_space ws1 = true -> wf_group g = true -> str_all is_re_space ws2 = true ->
+    has_char ch_tick g = false ->
+    rewrite has locate ("[" ++ ws1 ++ g ++ ws2 ++ "]" ++ post) =
+      omap (fun u => ("[" ++ ws1 ++ g ++ ws2 ++ "]") ++ u) (rewrite has locate post).
+  Proof. exact (rewrite_bracket_verbatim has locate ws1 g ws2 post). Qed.
+
+  (* `[ws]`: copied (before the fix: AttributeError from None.split) *)
   Theorem C16_rewrite_empty_bracket (ws post : string) :
     str_all is_re_space ws = true -> has_char ch_close post = false ->
-    rewrite has locate ("[" ++ ws ++ "]" ++ post) = Raise AttributeError.
+    rewrite has locate ("[" ++ ws ++ "]" ++ post) = omap (fun u => ("[" ++ ws ++ "]") ++ u) (rewrite has locate post).
   Proof. exact (rewrite_empty_bracket has locate ws post). Qed.
 
   (* ---- label_index_rewrite: a backticked label selects exactly C10's position ---- *)
@@ -360,41 +386,52 @@ Section C16_rewrite.
              label_slice_rewrite_loc has locate (LP a la) (LP b lb) (conj Ta (conj Ca Ra)) (conj Tb (conj Cb Rb))).
   Qed.
 
-  (* ---- brackets WITHOUT a backtick inside an expression that has one elsewhere (finding #15):
-          the exact characterisation ---- *)
-  (* a plain index: int() of the text, written back in canonical decimal; same meaning.  Anything that int() rejects
-     (X[a-1], a list literal, a nested subscript) raises ValueError *)
-  Theorem C16_positional_index_rewrite (g : string) :
-    no_tick g -> no_colon g ->
-    resolve_group has locate g =
-      match parse_pyint g with Some z => Ret ("[" ++ Z_to_string z ++ "]") | None => Raise ValueError end.
-  Proof. exact (positional_index_rewrite has locate g). Qed.
-
-  (* NB index_sem reads each item of a subscript with int()'s grammar; it is validated against CPython on canonical spellings
-     (what the rewriter writes).  Python's own literal grammar differs off that class: 007 is a SyntaxError, --1 is legal. *)
-  Theorem C16_positional_index_meaning_kept (n : nat) (g : string) (z : Z) :
-    no_colon g -> parse_pyint g = Some z -> index_sem n (Z_to_string z) = index_sem n g.
-  Proof. exact (positional_index_meaning_kept n g z). Qed.
-
-  (* a slice: both ends through int() (ValueError otherwise), and the stop INCREMENTED whenever one is written
-     (ropt None = "", ropt (Some z) = str(z)) *)
-  Theorem C16_positional_slice_rewrite (pa pb : string) :
-    no_tick pa -> no_colon pa -> no_tick pb -> no_colon pb ->
-    resolve_group has locate (pa ++ ":" ++ pb) =
-      match opt_int pa, opt_int pb with
-      | Some oa, Some ob => Ret ("[" ++ ropt oa ++ ":" ++ ropt (option_map (fun z => z + 1) ob) ++ ":" ++ "" ++ "]")
-      | _, _ => Raise ValueError
+  (* ---- MIXED brackets: a slice with a backticked label at one end and a plain text at the other still reaches the callback.
+          Items: MLab a l = `a` resolving to l; MPlain p = the text p ("" = open end).  m_val: the text written for an item —
+          a label's start / inclusive stop; a plain item through int(): as written if it is the start, INCREMENTED BY ONE if it is
+          the stop (X[`a`:3] selects position(a)..3 inclusive); ValueError if int() rejects it ---- *)
+  Theorem C16_mixed_slice_rewrite (x y : mpart) :
+    m_ok has locate x -> m_ok has locate y ->
+    resolve_group has locate (m_text x ++ ":" ++ m_text y) =
+      match m_val x false with
+      | Raise e => Raise e
+      | Ret a => match m_val y true with
+                 | Raise e => Raise e
+                 | Ret b => Ret ("[" ++ a ++ ":" ++ b ++ ":" ++ "" ++ "]")
+                 end
       end.
-  Proof. exact (positional_slice_rewrite has locate pa pb). Qed.
+  Proof. exact (mixed_slice_rewrite has locate x y). Qed.
 
-  Theorem C16_positional_slice_step_rewrite (pa pb ps : string) :
-    no_tick pa -> no_colon pa -> no_tick pb -> no_colon pb -> no_colon ps ->
-    resolve_group has locate (pa ++ ":" ++ pb ++ ":" ++ ps) =
-      match opt_int pa, opt_int pb with
-      | Some oa, Some ob => Ret ("[" ++ ropt oa ++ ":" ++ ropt (option_map (fun z => z + 1) ob) ++ ":" ++ strip is_py_space ps ++ "]")
-      | _, _ => Raise ValueError
+  Theorem C16_mixed_slice_step_rewrite (x y : mpart) (ps : string) :
+    m_ok has locate x -> m_ok has locate y -> no_colon ps ->
+    resolve_group has locate (m_text x ++ ":" ++ m_text y ++ ":" ++ ps) =
+      match m_val x false with
+      | Raise e => Raise e
+      | Ret a => match m_val y true with
+                 | Raise e => Raise e
+                 | Ret b => Ret ("[" ++ a ++ ":" ++ b ++ ":" ++ strip is_py_space ps ++ "]")
+                 end
       end.
-  Proof. exact (positional_slice_step_rewrite has locate pa pb ps). Qed.
+  Proof. exact (mixed_slice_step_rewrite has locate x y ps). Qed.
+
+  Theorem C16_mixed_label_start_int_stop (a : string) (pa z : Z) (n : nat) :
+    no_tick a -> no_colon a -> a ~> LocI PyInt pa ->
+    exists inner,
+      resolve_group has locate (("`" ++ a ++ "`") ++ ":" ++ Z_to_string z) = Ret ("[" ++ inner ++ "]") /\
+      index_sem n inner = Some (py_slice_positions n (Some pa) (Some (z + 1)) 1).
+  Proof. exact (label_start_int_stop has locate a pa z n). Qed.
+
+  Theorem C16_mixed_int_start_label_stop (z : Z) (b : string) (pb : Z) (n : nat) :
+    no_tick b -> no_colon b -> b ~> LocI PyInt pb ->
+    exists inner,
+      resolve_group has locate (Z_to_string z ++ ":" ++ ("`" ++ b ++ "`")) = Ret ("[" ++ inner ++ "]") /\
+      index_sem n inner = Some (py_slice_positions n (Some z) (Some (pb + 1)) 1).
+  Proof. exact (int_start_label_stop has locate z b pb n). Qed.
+
+  Theorem C16_mixed_slice_non_literal (a : string) (l : loc) (p : string) :
+    no_tick a -> no_colon a -> a ~> l -> no_tick p -> no_colon p -> opt_int p = None ->
+    resolve_group has locate (("`" ++ a ++ "`") ++ ":" ++ p) = Raise ValueError.
+  Proof. exact (mixed_slice_non_literal has locate a l p). Qed.
 
   (* more than three items: ValueError *)
   Theorem C16_too_many_items (pa pb pc rest : string) :
@@ -405,26 +442,27 @@ Section C16_rewrite.
   (* ---- WHOLE expressions: any number of brackets, any text between them.  An expression is cut into segments
           "text without an opening bracket, then a bracket [ ws1 g ws2 ]" (seg_ok: ws1/ws2 regex whitespace, g non-empty
           without closing bracket/newline and not starting/ending with whitespace) followed by a bracket-free tail. ---- *)
-  (* all brackets resolve: every bracket is replaced by its callback's text, everything else is copied verbatim *)
+  (* seg_out: a bracket with a backtick becomes its callback's text, a bracket without one ITSELF (brackets and whitespace).
+     All brackets resolve: every bracket is replaced by its seg_out, everything else is copied verbatim *)
   Theorem C16_whole_expression_rewrite (segs : list seg) (ts : list string) (tail : string) :
     forallb seg_ok segs = true -> has_char ch_open tail = false ->
-    Forall2 (fun s t => resolve_group has locate (sg_g s) = Ret t) segs ts ->
+    Forall2 (fun s t => seg_out has locate s = Ret t) segs ts ->
     rewrite has locate (expr_text segs tail) = Ret (expr_subst segs ts tail).
   Proof. exact (rewrite_whole_ok has locate segs ts tail). Qed.
 
   (* the leftmost bracket whose callback raises decides the outcome, whatever follows it *)
   Theorem C16_whole_expression_first_error (segs1 : list seg) (ts : list string) (s : seg) (segs2 : list seg) (tail : string) (e : exn) :
     forallb seg_ok (segs1 ++ s :: segs2) = true -> has_char ch_open tail = false ->
-    Forall2 (fun s t => resolve_group has locate (sg_g s) = Ret t) segs1 ts ->
-    resolve_group has locate (sg_g s) = Raise e ->
+    Forall2 (fun s t => seg_out has locate s = Ret t) segs1 ts ->
+    seg_out has locate s = Raise e ->
     rewrite has locate (expr_text (segs1 ++ s :: segs2) tail) = Raise e.
   Proof. exact (rewrite_whole_first_error has locate segs1 ts s segs2 tail e). Qed.
 
-  (* EVERY string: the rewriter raises nothing but ValueError, KeyError, AttributeError or what the span lookup itself raises
-     (C10: _locate_period_in_span converts everything to KeyError) *)
+  (* EVERY string: the rewriter raises nothing but ValueError, KeyError or what the span lookup itself raises
+     (C10: _locate_period_in_span converts everything to KeyError); AttributeError (None.split) is gone with fix 24bdfbd *)
   Theorem C16_rewrite_exceptions (s : string) (e : exn) :
     rewrite has locate s = Raise e ->
-    e = ValueError \/ e = KeyError \/ e = AttributeError \/ exists l, locate l = Raise e.
+    e = ValueError \/ e = KeyError \/ exists l, locate l = Raise e.
   Proof. exact (rewrite_exceptions has locate s e). Qed.
 
   (* whitespace padding around the index / around each slice item never changes the result *)
@@ -467,30 +505,27 @@ Section C16_rewrite.
   Proof. exact (label_missing_in_expression has locate pre ws1 a ws2 post). Qed.
 End C16_rewrite.
 
-(* meaning of a positional slice before and after the rewrite: [oa : ob] becomes [oa : ob+1] *)
-Theorem C16_positional_slice_meaning (n : nat) (pa pb : string) (oa ob : option Z) :
-  has_char ch_colon pa = false -> has_char ch_colon pb = false -> opt_int pa = Some oa -> opt_int pb = Some ob ->
-  index_sem n (pa ++ ":" ++ pb) = Some (py_slice_positions n oa ob 1) /\
-  index_sem n (ropt oa ++ ":" ++ ropt (option_map (fun z => z + 1) ob) ++ ":" ++ "")
-    = Some (py_slice_positions n oa (option_map (fun z => z + 1) ob) 1).
-Proof. exact (positional_slice_meaning n pa pb oa ob). Qed.
+(* every piece of a string is a character, a match `[` ws1 g ws2 `]` (its text contains a backtick exactly when g does) or a
+   match `[` ws `]` (never a backtick); the pieces partition the string *)
+Theorem C16_scan_partitions (s : string) : sconcat (map piece_src (scan s)) = s.
+Proof. exact (scan_partitions s). Qed.
 
-(* positional_untouched is FALSE today (#15): for every span, the positional contents 1:3 and :-1 come out of the
-   rewriter as subscripts selecting other positions of a List.length-5 series ... *)
-Theorem C16_positional_rewritten_refuted :
-  exists (n : nat) (g1 g2 : string),
-    has_char ch_tick g1 = false /\ has_char ch_tick g2 = false /\
-    forall has locate,
-      (exists g1', resolve_group has locate g1 = Ret ("[" ++ g1' ++ "]") /\ index_sem n g1' <> index_sem n g1) /\
-      (exists g2', resolve_group has locate g2 = Ret ("[" ++ g2' ++ "]") /\ index_sem n g2' <> index_sem n g2).
-Proof. exact positional_rewritten_refuted. Qed.
+(* NEW finding: a label must stand alone as an item of its bracket.  The regular expression ends a bracket at the FIRST closing
+   bracket and takes what precedes as one item, so a label inside a nested subscript or in parentheses is not found (KeyError
+   although it is in the span), and a label slice broken across lines is not matched at all: its backticks stay (SyntaxError) *)
+Theorem C16_label_in_nested_bracket_refuted :
+  exists (sp : span_model) (a : string) (p : Z),
+    span_has sp (LInt 2001) = true /\ span_locate sp (LInt 2001) = Ret (LocI PyInt p) /\ a = "2001" /\
+    eval_text_span sp ("X[N[`" ++ a ++ "`]]") = Raise KeyError /\
+    eval_text_span sp ("X[(`" ++ a ++ "`)]") = Raise KeyError /\
+    eval_text_span sp ("X[`" ++ a ++ "`]") = Ret "X[1]".
+Proof. exact label_in_nested_bracket_refuted. Qed.
 
-(* ... and through eval's first step on a whole expression *)
-Theorem C16_positional_rewritten_in_expression_refuted :
-  exists (sp : span_model) (e e' : string),
-    eval_text_span sp e = Ret e' /\ e' <> e /\
-    e = "X[1:3] + Y[`2001`]" /\ e' = "X[1:4:] + Y[1]" /\ index_sem 5 "1:3" = Some [1; 2]%nat /\ index_sem 5 "1:4:" = Some [1; 2; 3]%nat.
-Proof. exact positional_rewritten_in_expression_refuted. Qed.
+Theorem C16_label_slice_across_lines_refuted :
+  exists (sp : span_model) (e : string),
+    e = "(X[`2001`:" ++ String ch_nl "`2003`])" /\ eval_text_span sp e = Ret e /\ has_char ch_tick e = true /\
+    eval_text_span sp "(X[`2001`:`2003`])" = Ret "(X[1:4:])".
+Proof. exact label_slice_across_lines_refuted. Qed.
 
 (* NEW finding: a label that contains a colon is not read as that label — X[`a:b`] on the span [a; a:b; b; ...] is rewritten to
    the label SLICE a..b (positions 0..2) whereas label indexing selects position 1; labels containing a closing bracket or
@@ -552,11 +587,12 @@ Section C16_label_indexing.
   Proof. exact (label_slice_positions_are_C10_positions gl ct sp oa ob s n a' b'). Qed.
 
   (* ---- expressions as programs over typed brackets (any number of brackets, any bracket-free text between them):
-          [`a`] | [`a`:`b`(:s)] with either end possibly open | [z] | [a:(:s)]  — the shapes outside the kept finding classes.
-          b_ok: labels without backtick / colon / closing bracket / newline, steps > 0.
-          b_dst: the text each bracket becomes — for labels the position / bounds computed by the C10 model. ---- *)
+          [`a`] | [`a`:`b`(:s)] with one end possibly open | [g] for ANY g without a backtick.
+          b_ok: labels without backtick / colon / closing bracket / newline, steps > 0, g a well-formed group.
+          ps_out: what each bracket becomes — a label bracket its b_dst (position / bounds computed by the C10 model),
+          any other bracket itself, verbatim. ---- *)
   Theorem C16_bracket_resolves (b : bracket) :
-    b_ok b -> resolve_group (c10_has ct sp) (c10_locate gl sp) (b_src b) = b_dst gl ct sp b.
+    b_ok b -> is_label_bracket b = true -> resolve_group (c10_has ct sp) (c10_locate gl sp) (b_src b) = b_dst gl ct sp b.
   Proof. exact (bracket_resolves gl ct sp b). Qed.
 
   Theorem C16_bracket_source_is_well_formed (b : bracket) : b_ok b -> wf_group (b_src b) = true.
@@ -565,36 +601,35 @@ Section C16_label_indexing.
   (* the whole expression: every bracket replaced by its C10 text, everything else verbatim *)
   Theorem C16_program_rewrite (prog : list pseg) (ts : list string) (tail : string) :
     Forall pseg_ok prog -> has_char ch_open tail = false ->
-    Forall2 (fun p t => b_dst gl ct sp (ps_b p) = Ret t) prog ts ->
+    Forall2 (fun p t => ps_out gl ct sp p = Ret t) prog ts ->
     rewrite (c10_has ct sp) (c10_locate gl sp) (program_text prog tail) = Ret (program_subst prog ts tail).
   Proof. exact (program_rewrite gl ct sp prog ts tail). Qed.
 
   (* the leftmost bracket whose label lookup fails decides the exception *)
   Theorem C16_program_first_error (prog1 : list pseg) (ts : list string) (p : pseg) (prog2 : list pseg) (tail : string) (e : exn) :
     Forall pseg_ok (prog1 ++ p :: prog2)%list -> has_char ch_open tail = false ->
-    Forall2 (fun p t => b_dst gl ct sp (ps_b p) = Ret t) prog1 ts ->
-    b_dst gl ct sp (ps_b p) = Raise e ->
+    Forall2 (fun p t => ps_out gl ct sp p = Ret t) prog1 ts ->
+    ps_out gl ct sp p = Raise e ->
     rewrite (c10_has ct sp) (c10_locate gl sp) (program_text (prog1 ++ p :: prog2)%list tail) = Raise e.
   Proof. exact (program_first_error gl ct sp prog1 ts p prog2 tail e). Qed.
 
-  (* what the written subscript selects: for a label bracket the position / the slice bounds the C10 model computes
-     (b_positions), for a positional bracket py_pos / py_slice_positions of ITS OWN numbers ... *)
+  (* what the subscript written for a LABEL bracket selects: the position / the slice bounds the C10 model computes *)
   Theorem C16_bracket_meaning (n : nat) (b : bracket) (inner : string) :
-    b_ok b -> b_plain gl ct sp b -> b_inner gl ct sp b = Ret inner -> index_sem n inner = b_positions gl ct sp n b.
+    b_ok b -> is_label_bracket b = true -> b_plain gl ct sp b -> b_inner gl ct sp b = Ret inner ->
+    index_sem n inner = b_positions gl ct sp n b.
   Proof. exact (bracket_meaning gl ct sp n b inner). Qed.
 
-  (* ... which is what it selected as written: positional indexes and open-stop slices keep their Python meaning *)
-  Theorem C16_positional_bracket_meaning_kept (n : nat) (b : bracket) :
-    b_ok b -> (match b with BPosIndex _ | BPosOpenStop _ _ => True | _ => False end) ->
-    index_sem n (b_src b) = b_positions gl ct sp n b.
-  Proof. exact (positional_bracket_meaning_kept gl ct sp n b). Qed.
+  (* every other bracket — BPlain g, ANY text without a backtick — comes out as written: it keeps its Python meaning *)
+  Theorem C16_plain_bracket_verbatim (p : pseg) :
+    is_label_bracket (ps_b p) = false -> ps_out gl ct sp p = Ret (seg_bracket (to_seg p)).
+  Proof. exact (plain_bracket_verbatim gl ct sp p). Qed.
 
   (* eval()'s first step on a program whose backticks all stand inside its brackets: CPython receives a backtick-free text —
      the program with every bracket replaced (when a backtick occurs) or the text as written (when none does) *)
   Theorem C16_program_eval_text (prog : list pseg) (ts : list string) (tail : string) :
     Forall pseg_ok prog -> has_char ch_open tail = false ->
     Forall (fun p => has_char ch_tick (ps_pre p) = false) prog -> has_char ch_tick tail = false ->
-    Forall2 (fun p t => b_dst gl ct sp (ps_b p) = Ret t) prog ts ->
+    Forall2 (fun p t => ps_out gl ct sp p = Ret t) prog ts ->
     exists text, eval_text (c10_has ct sp) (c10_locate gl sp) (program_text prog tail) = Ret text /\
                  has_char ch_tick text = false /\
                  (has_char ch_tick (program_text prog tail) = true -> text = program_subst prog ts tail) /\
@@ -612,7 +647,7 @@ Theorem C16_eval_program
         (prog : list pseg) (ts : list string) (tail : string) :
   Forall pseg_ok prog -> has_char ch_open tail = false ->
   Forall (fun p => has_char ch_tick (ps_pre p) = false) prog -> has_char ch_tick tail = false ->
-  Forall2 (fun p t => b_dst gl ct sp (ps_b p) = Ret t) prog ts ->
+  Forall2 (fun p t => ps_out gl ct sp p = Ret t) prog ts ->
   (forall l, bi = Some l -> (l < List.length dh)%nat) ->
   let r := eval_M V (c10_has ct sp) (c10_locate gl sp) pyeval dh tbl vars (program_text prog tail) locals bi in
   exists text,
@@ -765,7 +800,7 @@ Section C16_eval.
           (segs : list seg) (ts : list string) (tail : string) :
     forallb seg_ok segs = true -> has_char ch_open tail = false ->
     has_char ch_tick (expr_text segs tail) = true ->
-    Forall2 (fun s t => resolve_group has locate (sg_g s) = Ret t) segs ts ->
+    Forall2 (fun s t => seg_out has locate s = Ret t) segs ts ->
     (forall l, bi = Some l -> (l < List.length dh)%nat) ->
     snd (eval_M V has locate pyeval dh tbl vars (expr_text segs tail) locals bi)
       = convert V (pyeval (expr_subst segs ts tail)
@@ -778,8 +813,8 @@ Section C16_eval.
           (segs1 : list seg) (ts : list string) (s : seg) (segs2 : list seg) (tail : string) (e : exn) :
     forallb seg_ok (segs1 ++ s :: segs2) = true -> has_char ch_open tail = false ->
     has_char ch_tick (expr_text (segs1 ++ s :: segs2) tail) = true ->
-    Forall2 (fun s t => resolve_group has locate (sg_g s) = Ret t) segs1 ts ->
-    resolve_group has locate (sg_g s) = Raise e ->
+    Forall2 (fun s t => seg_out has locate s = Ret t) segs1 ts ->
+    seg_out has locate s = Raise e ->
     eval_M V has locate pyeval dh tbl vars (expr_text (segs1 ++ s :: segs2) tail) locals bi = ((dh, vars), ERaise e).
   Proof. exact (eval_whole_expression_error V has locate pyeval dh tbl vars locals bi segs1 ts s segs2 tail e). Qed.
 End C16_eval.
@@ -809,7 +844,6 @@ Print Assumptions C16_inclusive_slice_empty_when_reversed.
 Print Assumptions C16_open_start_slice_positions.
 Print Assumptions C16_open_stop_slice_positions.
 Print Assumptions C16_positional_untouched_without_backtick.
-Print Assumptions C16_with_backtick_every_bracket_is_rewritten.
 Print Assumptions C16_rewrite_no_bracket.
 Print Assumptions C16_rewrite_prefix.
 Print Assumptions C16_rewrite_bracket.
@@ -822,14 +856,7 @@ Print Assumptions C16_label_slice_step_rewrite.
 Print Assumptions C16_label_slice_open_start_rewrite.
 Print Assumptions C16_label_slice_open_stop_rewrite.
 Print Assumptions C16_label_slice_rewrite_any_location.
-Print Assumptions C16_positional_index_rewrite.
-Print Assumptions C16_positional_index_meaning_kept.
-Print Assumptions C16_positional_slice_rewrite.
-Print Assumptions C16_positional_slice_step_rewrite.
 Print Assumptions C16_too_many_items.
-Print Assumptions C16_positional_slice_meaning.
-Print Assumptions C16_positional_rewritten_refuted.
-Print Assumptions C16_positional_rewritten_in_expression_refuted.
 Print Assumptions C16_namespace_precedence.
 Print Assumptions C16_last_binding_of_a_dict.
 Print Assumptions C16_eval_spec.
@@ -866,7 +893,6 @@ Print Assumptions C16_bracket_source_is_well_formed.
 Print Assumptions C16_program_rewrite.
 Print Assumptions C16_program_first_error.
 Print Assumptions C16_bracket_meaning.
-Print Assumptions C16_positional_bracket_meaning_kept.
 Print Assumptions C16_fill_cast_ok.
 Print Assumptions C16_shift_fill_cast_error.
 Print Assumptions C16_diff_fill_cast_error.
@@ -881,3 +907,16 @@ Print Assumptions C16_checked_range_span_is_C10_span.
 Print Assumptions C16_eval_program.
 Print Assumptions C16_int_accepts_implies_int_of_strip_accepts.
 Print Assumptions C16_int_of_strip_accepts_more.
+Print Assumptions C16_rewrite_is_piecewise.
+Print Assumptions C16_positional_brackets_untouched.
+Print Assumptions C16_rewrite_without_backtick_is_identity.
+Print Assumptions C16_rewrite_bracket_verbatim.
+Print Assumptions C16_mixed_slice_rewrite.
+Print Assumptions C16_mixed_slice_step_rewrite.
+Print Assumptions C16_mixed_label_start_int_stop.
+Print Assumptions C16_mixed_int_start_label_stop.
+Print Assumptions C16_mixed_slice_non_literal.
+Print Assumptions C16_scan_partitions.
+Print Assumptions C16_label_in_nested_bracket_refuted.
+Print Assumptions C16_label_slice_across_lines_refuted.
+Print Assumptions C16_plain_bracket_verbatim.
